@@ -2,6 +2,7 @@ import RgVerif.Lemmas.PrinterJson
 import RgVerif.Lemmas.PrinterRecord
 import RgVerif.Lemmas.PrinterStd
 import RgVerif.Lemmas.PrinterJsonRun
+import RgVerif.Lemmas.PrinterMulti
 /-
 C09 — printed lines and their coordinates are the input's own; JSON output is lossless.
 Only the theorems that decide the property live here (helper lemmas: `Lemmas/Printer*.lean`).
@@ -11,7 +12,7 @@ deliver and every matcher (`find : haystack → position → match`).
 -/
 namespace RgVerif.Props.C09
 open RgVerif RgVerif.Matcher RgVerif.Replace RgVerif.Json RgVerif.Printer RgVerif.PrinterSpec
-open RgVerif.Lemmas.PrinterIter RgVerif.Lemmas.PrinterStd RgVerif.Lemmas.PrinterJsonRun
+open RgVerif.Lemmas.PrinterIter RgVerif.Lemmas.PrinterStd RgVerif.Lemmas.PrinterJsonRun RgVerif.Lemmas.PrinterMulti
 
 /-! ## Round trips -/
 
@@ -110,31 +111,76 @@ example :
     [{ path := none, lineNo := some 1, col := some 4, off := none, isCtx := false, text := [97, 98, 99, 10] }] := by
   decide
 
-/-- **C09, Standard printer, one event** (every path except the slow multi-line one, see
-`Lemmas.PrinterStd.fastPath`): the sink appends, after the search prelude when nothing was written yet in this
-search, exactly the layout of the event's records. -/
+/-- Full statement for one event: whatever the line terminator mode, the sink appends exactly the layout of the
+event's own records (only-matching output is outside C09). -/
+def C09_standard_event_full : Prop :=
+  ∀ (sc : SCfg) (c : StdCfg) (find : Oracle) (st : StdState) (ev : Event),
+    c.onlyMatching = false →
+    (stdEvent sc c find st ev).1.out = st.out ++ eventOutput sc c find st.count st.total ev
+
+/-- FALSE on the current tree (finding F19): `--crlf -U` with match granularity prints the bare-LF line `a\n` of
+a block as `a\r\n`. -/
+theorem C09_standard_event_full_fails : ¬ C09_standard_event_full := by
+  intro h
+  have := h { lt := .crlf, multiLine := true } { stats := true }
+    (fun _ p => if p == 0 then some ⟨0, 3⟩ else none) {} (.matched [97, 10, 98, 10] 0 4 0 none) rfl
+  revert this
+  decide
+
+/-- **C09, Standard printer, one event**, every path (single-line, context, fast / slow / `--vimgrep` multi-line)
+under the guard `coveredPath` — on the slow multi-line path no bare-LF line under `--crlf`: the sink appends, after the search prelude when nothing was
+written yet in this search, exactly the layout of the event's own records. -/
 theorem C09_standard_event (sc : SCfg) (c : StdCfg) (find : Oracle) (st : StdState) (ev : Event)
-    (ho : c.onlyMatching = false) (hf : fastPath sc c find ev = true) :
+    (ho : c.onlyMatching = false) (hc : coveredPath sc c find ev = true) :
     (stdEvent sc c find st ev).1.out = st.out ++ eventOutput sc c find st.count st.total ev :=
-  stdEvent_out sc c find st ev ho hf
+  stdEvent_out_covered sc c find st ev ho hc
 
 /-- **C09, Standard printer, whole stream**: the bytes printed for a search are the concatenation, over the
 events the sink consumed (in order), of each event's own records in the record layout; nothing else is printed
 except the search separator / heading before the first record and the context separator for a context break. -/
 theorem C09_standard (sc : SCfg) (c : StdCfg) (find : Oracle) (st : StdState) (evs : List Event)
-    (ho : c.onlyMatching = false) (hf : ∀ ev ∈ evs, fastPath sc c find ev = true) :
+    (ho : c.onlyMatching = false) (hc : ∀ ev ∈ evs, coveredPath sc c find ev = true) :
     (stdEvents sc c find st evs).out =
       st.out ++ (processed sc c find st evs).flatMap (fun p => eventOutput sc c find p.1.count p.1.total p.2) :=
-  stdEvents_out sc c find ho evs st hf
+  stdEvents_out_covered sc c find ho evs st hc
+
+/-- In a multi-line block every line is a record of its own: line number `ln + i`, the offset of its first byte,
+its own text (a missing terminator completed). -/
+theorem block_records_own (lt : LineTerm) (c : StdCfg) (absOff : Nat) (ln col : Option Nat) :
+    ∀ (lines : List Bytes) (i off : Nat) (k : Nat) (hk : k < lines.length),
+      ∃ r, (blockRecords lt c absOff ln col i off lines)[k]? = some r ∧
+        r.text = completed lt lines[k] ∧ r.lineNo = ln.map (· + (i + k)) ∧
+        r.off = optIf c.byteOffset (absOff + (off + ((lines.take k).map List.length).sum)) := by
+  intro lines
+  induction lines with
+  | nil => intro i off k hk; simp at hk
+  | cons line rest ih =>
+    intro i off k hk
+    cases k with
+    | zero =>
+      refine ⟨{ path := recPath c, lineNo := ln.map (· + i), col := col, off := optIf c.byteOffset (absOff + off)
+              , isCtx := false, text := completed lt line }, by simp [blockRecords], by simp, by simp, by simp⟩
+    | succ k =>
+      have hk' : k < rest.length := by simpa using hk
+      obtain ⟨r, hr, h1, h2, h3⟩ := ih (i + 1) (off + line.length) k hk'
+      refine ⟨r, by simpa [blockRecords] using hr, by simpa using h1, ?_, ?_⟩
+      · rw [h2]; congr 1; funext x; omega
+      · rw [h3]; simp; congr 1; omega
 
 /-- non-vacuity of the hypotheses of `C09_standard`: a match with `--column` in single-line mode is on the covered
-path and has a recorded match; so is a multi-line block without match granularity. -/
+path and has a recorded match; so is a multi-line block with match granularity whose lines end in LF (or CRLF
+under `--crlf`). -/
 example :
-    fastPath {} { column := true } (fun _ p => if p ≤ 1 then some ⟨1, 2⟩ else none)
+    coveredPath {} { column := true } (fun _ p => if p ≤ 1 then some ⟨1, 2⟩ else none)
       (.matched [97, 98, 10, 99] 0 3 0 (some 1)) = true ∧
     eventSpans {} { column := true } (fun _ p => if p ≤ 1 then some ⟨1, 2⟩ else none)
       (.matched [97, 98, 10, 99] 0 3 0 (some 1)) = [⟨1, 2⟩] ∧
-    fastPath { multiLine := true } {} (fun _ _ => none) (.matched [97, 10, 98, 10] 0 4 0 (some 1)) = true := by
+    coveredPath { multiLine := true } { column := true } (fun _ p => if p == 0 then some ⟨0, 3⟩ else none)
+      (.matched [97, 10, 98, 10] 0 4 0 (some 1)) = true ∧
+    eventSpans { multiLine := true } { column := true } (fun _ p => if p == 0 then some ⟨0, 3⟩ else none)
+      (.matched [97, 10, 98, 10] 0 4 0 (some 1)) = [⟨0, 3⟩] ∧
+    coveredPath { multiLine := true, lt := .crlf } { column := true } (fun _ p => if p == 0 then some ⟨0, 4⟩ else none)
+      (.matched [97, 13, 10, 98, 13, 10] 0 6 0 (some 1)) = true := by
   decide
 
 /-! ## JSON printer -/
